@@ -1,6 +1,19 @@
 (* Pinned statements of C08 (generated once by tools/mkpins.py from coq/props/C08.v, then committed). *)
 From DV Require Import Model.Base Model.NameCheck Model.Parser Model.Header Model.Readers Model.Uncompress
-  Model.Mutate Proofs.Hoare Proofs.HeaderBits Proofs.InsertLemmas props.C08.
+  Model.Mutate Proofs.Hoare Proofs.HeaderBits Proofs.InsertLemmas Proofs.EdnsPlain props.C08.
+Check (C08_decompression_keeps_edns_summary : forall p v q v',
+  bytes_ok p -> parse p = Ok v -> uncompress p = Ok q -> parse q = Ok v' ->
+  pp_edns_count v' = pp_edns_count v /\ pp_ext_rcode v' = pp_ext_rcode v /\ pp_edns_version v' = pp_edns_version v /\
+  pp_ext_flags v' = pp_ext_flags v /\ pp_max_payload v' = pp_max_payload v).
+Print Assumptions C08_decompression_keeps_edns_summary.
+Check (C08_recompute_is_fresh_parse : forall p v it, bytes_ok p -> parse p = Ok v ->
+  exists q v', uncompress p = Ok q /\ parse q = Ok v' /\ pp_packet v' = q /\
+               m_recompute (v, it) = ((decompressed_view v', it), Ok tt)).
+Print Assumptions C08_recompute_is_fresh_parse.
+Check (C08_insert_prologue_is_fresh_parse : forall p v it, bytes_ok p -> parse p = Ok v ->
+  exists q v', uncompress p = Ok q /\ parse q = Ok v' /\ pp_packet v' = q /\
+               insert_prologue (v, it) = ((decompressed_view v', it), Ok tt)).
+Print Assumptions C08_insert_prologue_is_fresh_parse.
 Check (C08_header_setters_keep_view : forall v v',
   (exists n, pp_set_tid v n = Ok v' \/ pp_set_flags v n = Ok v' \/ pp_set_rcode v n = Ok v' \/ pp_set_opcode v n = Ok v') \/
   (exists b, pp_set_response v b = Ok v') ->
